@@ -250,6 +250,13 @@ func init() {
 			px.observes = append(px.observes, obsRec{Name: px.uniqueName("obs:" + str(args[0])), val: args[1]})
 			return nil
 		},
+		"SkipCalls": func(fr *frame, args []value) value {
+			if fr.i.px.skipFns == nil {
+				fr.i.px.skipFns = map[string]bool{}
+			}
+			fr.i.px.skipFns[str(args[0])] = true
+			return nil
+		},
 		"TypeName": func(fr *frame, args []value) value {
 			x, ok := args[0].(iface)
 			if !ok || x.t == nil {
@@ -927,6 +934,10 @@ func DefaultIntrinsics() map[string]externalFn {
 			out[i] = sb.String()[i]
 		}
 		return tuple{out, iface{}}
+	}
+	// FIPS service indicator bookkeeping of the crypto packages (goroutine-local runtime state): no-ops
+	for _, n := range []string{"crypto/internal/fips140.RecordApproved", "crypto/internal/fips140.RecordNonApproved", "crypto/internal/fips140.ResetServiceIndicator"} {
+		m[n] = zeroFn
 	}
 	m["runtime/debug.Stack"] = func(fr *frame, a []value) value { return []value{} }
 	m["time.Now"] = func(fr *frame, a []value) value {
